@@ -327,6 +327,15 @@ pub fn c09_shapes(thorough: bool, seed: u64) -> Vec<Shape> {
         let mut w = Shape::new("wide_64_plus_1", &p1, &[&[Chal, AllocMul, Con]]);
         w.lc_width = 3;
         v.push(w);
+        // ... and a phase whose size is no multiple of a likely block size (40 = 32 + 8), in the second phase
+        {
+            let mut p2 = vec![Chal];
+            p2.extend(vec![AllocMul; 40]);
+            p2.push(Con);
+            let mut w = Shape::new("wide_1_plus_40", &[Commit, AllocMul, Con], &[p2.as_slice()]);
+            w.lc_width = 3;
+            v.push(w);
+        }
         if thorough {
             let mut p2 = vec![Chal];
             p2.extend(vec![AllocMul; 65]);
